@@ -421,7 +421,7 @@ class TapeRoundTrip:
             out.append({"id": "rt/3files/%s" % ",".join(map(str, tr)), "kind": "rt", "lens": tr, "names": [1, 8, 12],
                         "bounded": "3 files, lengths %s" % tr})
         out.append({"id": "rt/0files", "kind": "rt", "lens": [], "names": [], "bounded": "empty list"})
-        for shape in ("leader1", "leader500", "gaps-between-blocks", "no-gap", "two-files-short-leaders"):
+        for shape in ("leader1", "leader500", "gaps-between-blocks", "no-gap", "two-files-short-leaders", "short-blocks-in-the-middle"):
             for L in (1, 255, 256, 600):
                 out.append({"id": "foreign/%s/len%d" % (shape, L), "kind": "foreign", "shape": shape, "len": L,
                             "bounded": "foreign stream %s, data length %d" % (shape, L)})
@@ -523,17 +523,20 @@ class TapeRoundTrip:
         exe = env.hole_int("exec", 0, 65535)
         want = []
 
-        def one(name, gap, leader, between):
+        def one(name, gap, leader, between, sizes=(255,)):
             nf = tape.namefile_payload(name, 2, 0, 0xFF if between else 0, 0, 0)
             nf[11:15] = [_hi(load), _lo(load), _hi(exe), _lo(exe)]
             out = [0] * gap + [0x55] * leader + _sym_block(0, nf) + [0] * gap + [0x55] * leader
             d = list(data)
             first = True
+            k = 0
             while d:
                 if between and not first:
                     out += [0] * 16 + [0x55] * 32
-                out += _sym_block(1, d[:255])
-                d = d[255:]
+                sz = sizes[k % len(sizes)]
+                k += 1
+                out += _sym_block(1, d[:sz])
+                d = d[sz:]
                 first = False
             out += tape.EOF_BLOCK
             want.append((name, 2, 0, load, exe, data))
@@ -546,6 +549,8 @@ class TapeRoundTrip:
             buf = one("GAPPY", 128, 128, True)
         elif shape == "no-gap":
             buf = one("NOGAP", 0, 128, False)
+        elif shape == "short-blocks-in-the-middle":
+            buf = one("SHORTMID", 0, 2, False, sizes=(10, 255, 3, 1, 128))
         else:
             buf = one("A", 0, 2, False) + one("B", 1, 3, False)
         sigpfx = "foreign/%s/len%d" % (shape, L)
